@@ -13,10 +13,11 @@ structure Inv (c : Cfg) (s : State) : Prop where
   sorted : (s.arrived.map (·.2)).Pairwise (· ≤ ·)
   idle : s.pc = .idle → s.cur = [] ∧ s.fin = false
   coll : s.pc = .coll → 1 ≤ s.cur.length ∧ s.cur.length < c.bs ∧ s.fin = false ∧
-            s.t0 ≤ s.clock ∧ s.clock ≤ s.t0 + c.wait
+            s.t0 ≤ s.clock ∧ (c.strict = true → s.clock ≤ s.t0 + c.wait)
   flush : s.pc = .flush → 1 ≤ s.cur.length ∧ s.cur.length ≤ c.bs ∧
             (s.fin = false → s.cur.length < c.bs →
-              s.clock = s.t0 + c.wait ∧ arrivedBefore s (s.t0 + c.wait) ≤ s.taken.length)
+              s.t0 + c.wait ≤ s.clock ∧ (c.strict = true → s.clock = s.t0 + c.wait) ∧
+              arrivedBefore s (s.t0 + c.wait) ≤ s.taken.length)
   held : s.pc = .held → s.cur = []
   closing : s.pc = .closing → s.cur = [] ∧ s.fin = true
   done : s.pc = .done → s.cur = [] ∧ s.fin = true
@@ -58,10 +59,11 @@ theorem inv_step (c : Cfg) (hbs : 1 ≤ c.bs) (s : State) (a : Act) (s' : State)
       obtain ⟨h1, h2, h3⟩ := hflush hpc
       refine ⟨h1, h2, ?_⟩
       intro hf hl
-      obtain ⟨h4, h5⟩ := h3 hf hl
-      refine ⟨h4, ?_⟩
+      obtain ⟨h4, h4', h5⟩ := h3 hf hl
+      refine ⟨h4, h4', ?_⟩
       simp only [arrivedBefore, List.filter_append] at h5 ⊢
-      simpa [h4] using h5
+      have : ¬ s.clock < s.t0 + c.wait := by omega
+      simpa [this] using h5
   | tick d hd hg =>
     constructor <;> try assumption
     case stamps => intro p hp; have := hstamps p hp; show p.2 ≤ s.clock + d; omega
@@ -71,8 +73,10 @@ theorem inv_step (c : Cfg) (hbs : 1 ≤ c.bs) (s : State) (a : Act) (s' : State)
       obtain ⟨h1, h2, h3, h4, h5⟩ := hcoll hpc
       refine ⟨h1, h2, h3, ?_, ?_⟩
       · show s.t0 ≤ s.clock + d; omega
-      · show s.clock + d ≤ s.t0 + c.wait
-        rcases hg with hg | hg | hg | hg
+      · intro hstrict
+        show s.clock + d ≤ s.t0 + c.wait
+        rcases hg with hg | hg | hg | hg | hg
+        · simp [hstrict] at hg
         · simp [hpc] at hg
         · exact hg.2.2
         · simp [hpc] at hg
@@ -80,7 +84,18 @@ theorem inv_step (c : Cfg) (hbs : 1 ≤ c.bs) (s : State) (a : Act) (s' : State)
     case flush =>
       intro hpc
       have hpc : s.pc = .flush := hpc
-      rcases hg with hg | hg | hg | hg <;> simp [hpc] at hg
+      obtain ⟨h1, h2, h3⟩ := hflush hpc
+      refine ⟨h1, h2, ?_⟩
+      intro hf hl
+      obtain ⟨h4, h4', h5⟩ := h3 hf hl
+      refine ⟨by show s.t0 + c.wait ≤ s.clock + d; omega, ?_, h5⟩
+      intro hstrict
+      rcases hg with hg | hg | hg | hg | hg
+      · simp [hstrict] at hg
+      · simp [hpc] at hg
+      · simp [hpc] at hg
+      · simp [hpc] at hg
+      · simp [hpc] at hg
   | takeIdleEnd hq hpc he =>
     have hz := isEnd_eq he
     obtain ⟨hc, hf⟩ := hidle hpc
@@ -160,7 +175,7 @@ theorem inv_step (c : Cfg) (hbs : 1 ≤ c.bs) (s : State) (a : Act) (s' : State)
       intro _
       refine ⟨hc1, by show s.cur.length ≤ c.bs; omega, ?_⟩
       intro _ _
-      refine ⟨by show s.clock = s.t0 + c.wait; omega, ?_⟩
+      refine ⟨ht, by intro hstrict; have := hc4 hstrict; show s.clock = s.t0 + c.wait; omega, ?_⟩
       show (s.arrived.filter (fun p : Item × Nat => decide (p.2 < s.t0 + c.wait))).length ≤ s.taken.length
       have h1 : s.arrived.length = s.taken.length := by
         have := congrArg List.length harr
